@@ -435,8 +435,8 @@ def run(ctx):
     if err:
         ctx.unshown(err)
         table_ok = False
-    elif text != committed or not coq.ok:
-        stats["table_differs_from_committed"] = text != committed
+    elif vlib._strip_coq_comments(text) != vlib._strip_coq_comments(committed) or not coq.ok:
+        stats["table_differs_from_committed"] = vlib._strip_coq_comments(text) != vlib._strip_coq_comments(committed)
         if coq.ok or os.path.exists(os.path.join(vlib.COQ, "Par_Region_Proof.vo")):
             table_ok, det = check_current_table(ctx, tr, text)
             if table_ok:
@@ -493,7 +493,7 @@ def run(ctx):
         samples=[{k: c[k] for k in ("region", "N", "k", "d", "L", "dim", "seed", "int")} for c in cases[:3] + cases[-3:]],
         histogram={"regions": hist, "N": sizes, "combinations(threads:kind:chunk)": combos, "stats": stats,
                    "translator": {"regions_found": [r["name"] for r in tr["regions"]] if tr else [],
-                                  "table_equals_committed": (text == committed) if text else False,
+                                  "table_equals_committed": (vlib._strip_coq_comments(text) == vlib._strip_coq_comments(committed)) if text else False,
                                   "hlle_exprs_found": bool(tr and tr["hlle"])},
                    "tsan_archer": tsan},
         trusted_base=TRUSTED,
